@@ -1,14 +1,17 @@
 (* Static typing of operations against a schema, and conformance of data graphs (C13).
    Definitions only; proofs in Exec/Soundness.v.
 
-   The typing judgment is directed by RUNTIME OBJECT TYPES: a selection set is checked once for
-   every object type a value can have there.  It is therefore at least as permissive as the
-   validation rules it stands for (FieldsOnCorrectType, ScalarLeafs, KnownArgumentNames,
-   ProvidedRequiredArguments, ValuesOfCorrectType, VariablesAreInputTypes, NoUndefinedVariables,
-   VariablesInAllowedPosition, KnownFragmentNames, NoFragmentCycles): on a valid schema a document
-   accepted by them is accepted here (checked on every run by harness/c13.py).  With a key map
-   ([Some m]) the judgment also demands that a response key names one field document-wide, the
-   simple stand-in for OverlappingFieldsCanBeMerged under which soundness is proved. *)
+   The typing judgment is directed by RUNTIME OBJECT TYPES: a (merged) selection set is judged once
+   for every object type a value can have there, on the set of fields it can contribute for that
+   type ([reach]: through inline fragments and fragment spreads whose type condition applies,
+   whatever @skip/@include say).  It demands of every such field what FieldsOnCorrectType,
+   ScalarLeafs, KnownArgumentNames, ProvidedRequiredArguments, ValuesOfCorrectType,
+   NoUndefinedVariables and VariablesInAllowedPosition demand, of two such fields with the same
+   response key the same field name (the part of OverlappingFieldsCanBeMerged that execution relies
+   on: both apply to the same object type), and the same again of every selection set that merging
+   the sub-selections of fields with one response key can produce.  On a valid schema a document
+   accepted by validate() is accepted here (checked on every run by harness/c13.py); the judgment
+   is more permissive than validation (it ignores selections no runtime type can reach). *)
 From GV Require Import Base.Prelude Exec.Value Exec.Schema Exec.Spec.
 
 (* ------------------------------------------------------------------ values *)
@@ -52,6 +55,10 @@ Fixpoint find_var (x : str) (l : list var_def) : option var_def :=
 Section Values.
   Variable s : schema.
   Variable vdefs : list var_def.
+  (* Names of the variables of nullable type whose runtime value is null.  Static typing takes [];
+     with the actual list the judgment also excludes the one case the specification defers to run
+     time: such a variable in a non-null position (legal because a default exists). *)
+  Variable nulls : list str.
 
   (* a literal (possibly with variables) at a location of type [t]; [loc_default]: the location
      (an argument) has a default value *)
@@ -60,6 +67,7 @@ Section Values.
     | VVar x =>
         match find_var x vdefs with
         | Some vd => allowed_usage (v_type vd) (v_default vd) t loc_default
+                     && negb (is_nonnull t && mem x nulls)
         | None => false
         end
     | VNull => negb (is_nonnull t)
@@ -114,14 +122,6 @@ Definition schema_ok (s : schema) : bool :=
 
 (* ------------------------------------------------------------------ selections *)
 
-Definition keymap := list (str * str).           (* response key -> field name *)
-
-Definition key_ok (U : option keymap) (k n : str) : bool :=
-  match U with
-  | None => true
-  | Some m => match lookup k m with Some n' => str_eqb n' n | None => false end
-  end.
-
 Definition is_leaf_def (td : type_def) : bool :=
   match td with TScalar _ | TEnum _ => true | _ => false end.
 
@@ -131,108 +131,123 @@ Definition is_composite_def (td : type_def) : bool :=
 Definition runtime_of_b (s : schema) (n rt : str) : bool :=
   (is_object s n && str_eqb rt n) || (is_object s rt && possible s n rt).
 
+Definition object_names (s : schema) : list str :=
+  flat_map (fun e => match snd e with TObject _ _ => [fst e] | _ => [] end) (s_types s).
+
 Section Selections.
   Variable s : schema.
   Variable frags : list fragment.
   Variable vdefs : list var_def.
-  Variable U : option keymap.
+  Variable nulls : list str.
 
-  Inductive sel_typed : str -> selection -> Prop :=
-  | st_typename rt al dirs :
-      key_ok U (response_key al n_typename) n_typename = true ->
-      dirs_ok s vdefs dirs = true ->
-      sel_typed rt (SField al n_typename [] dirs [])
-  | st_field rt al name args dirs sub fd :
-      str_eqb name n_typename = false ->
-      key_ok U (response_key al name) name = true ->
-      lookup_field s rt name = Some fd ->
-      args_ok s vdefs (f_args fd) args = true ->
-      dirs_ok s vdefs dirs = true ->
-      sub_typed (f_type fd) sub ->
-      sel_typed rt (SField al name args dirs sub)
-  | st_inline_other rt c dirs sub :
-      cond_matches s c rt = false -> dirs_ok s vdefs dirs = true ->
-      sel_typed rt (SInline (Some c) dirs sub)
-  | st_inline rt tc dirs sub :
+  (* the fields (with response key) a selection list can contribute for runtime type [rt] *)
+  Inductive reach (rt : str) : list selection -> str -> fieldsel -> Prop :=
+  | r_field sels al name args dirs sub :
+      In (SField al name args dirs sub) sels ->
+      reach rt sels (response_key al name) (mkFS name args sub)
+  | r_inline sels tc dirs sub k f :
+      In (SInline tc dirs sub) sels ->
       match tc with Some c => cond_matches s c rt | None => true end = true ->
-      dirs_ok s vdefs dirs = true ->
-      Forall (sel_typed rt) sub ->
-      sel_typed rt (SInline tc dirs sub)
-  | st_spread_other rt name dirs fr :
-      find_frag name frags = Some fr -> cond_matches s (fr_cond fr) rt = false ->
-      dirs_ok s vdefs dirs = true ->
-      sel_typed rt (SSpread name dirs)
-  | st_spread rt name dirs fr :
-      find_frag name frags = Some fr -> cond_matches s (fr_cond fr) rt = true ->
-      dirs_ok s vdefs dirs = true ->
-      Forall (sel_typed rt) (fr_sels fr) ->
-      sel_typed rt (SSpread name dirs)
-  (* the sub-selection of a field of type [t] *)
-  with sub_typed : ty -> list selection -> Prop :=
-  | sub_leaf t td :
-      lookup_type s (named_of t) = Some td -> is_leaf_def td = true -> sub_typed t []
-  | sub_composite t td sub :
-      lookup_type s (named_of t) = Some td -> is_composite_def td = true -> sub <> [] ->
-      (forall rt', runtime_of_b s (named_of t) rt' = true -> Forall (sel_typed rt') sub) ->
-      sub_typed t sub.
+      reach rt sub k f -> reach rt sels k f
+  | r_spread sels name dirs fr k f :
+      In (SSpread name dirs) sels -> find_frag name frags = Some fr ->
+      cond_matches s (fr_cond fr) rt = true ->
+      reach rt (fr_sels fr) k f -> reach rt sels k f.
 
-  Definition object_names : list str :=
-    flat_map (fun e => match snd e with TObject _ _ => [fst e] | _ => [] end) (s_types s).
+  (* one field against the object type [rt] *)
+  Definition field_ok (rt : str) (f : fieldsel) : bool :=
+    if str_eqb (fs_name f) n_typename
+    then match fs_args f, fs_sels f with [], [] => true | _, _ => false end
+    else
+      match lookup_field s rt (fs_name f) with
+      | None => false
+      | Some fd =>
+        args_ok s vdefs nulls (f_args fd) (fs_args f) &&
+        match lookup_type s (named_of (f_type fd)) with
+        | None => false
+        | Some td =>
+          if is_leaf_def td then match fs_sels f with [] => true | _ => false end
+          else is_composite_def td && match fs_sels f with [] => false | _ => true end
+        end
+      end.
 
-  (* the checker; fuel bounds the nesting of selection sets and fragment bodies (a cycle of
-     fragment spreads exhausts it) *)
-  Fixpoint check_sel (fuel : nat) (rt : str) (x : selection) : bool :=
+  Inductive set_typed : str -> list selection -> Prop :=
+  | set_typed_intro rt sels :
+      (forall k f, reach rt sels k f -> field_ok rt f = true) ->
+      (forall k f1 f2, reach rt sels k f1 -> reach rt sels k f2 -> fs_name f1 = fs_name f2) ->
+      (forall k fs f1 fd rt',
+          (forall f, In f fs -> reach rt sels k f) -> In f1 fs ->
+          lookup_field s rt (fs_name f1) = Some fd ->
+          runtime_of_b s (named_of (f_type fd)) rt' = true ->
+          set_typed rt' (merged_sels fs)) ->
+      set_typed rt sels.
+
+  (* ---- the checker ---- *)
+
+  (* [reach] as a list; fragments are expanded at every spread, fuel bounds the nesting (a cycle of
+     spreads, or an unknown fragment, gives None) *)
+  Fixpoint reach_sels (rec : list selection -> option (list (str * fieldsel))) (rt : str)
+    (sels : list selection) : option (list (str * fieldsel)) :=
+    match sels with
+    | [] => Some []
+    | x :: rest =>
+      let here :=
+        match x with
+        | SField al name args dirs sub => Some [(response_key al name, mkFS name args sub)]
+        | SInline tc dirs sub =>
+            if match tc with Some c => cond_matches s c rt | None => true end then rec sub else Some []
+        | SSpread name dirs =>
+            match find_frag name frags with
+            | None => None
+            | Some fr => if cond_matches s (fr_cond fr) rt then rec (fr_sels fr) else Some []
+            end
+        end in
+      match here, reach_sels rec rt rest with
+      | Some a, Some b => Some (a ++ b)
+      | _, _ => None
+      end
+    end.
+
+  Fixpoint reach_list (fuel : nat) (rt : str) (sels : list selection)
+    : option (list (str * fieldsel)) :=
+    match fuel with
+    | O => None
+    | S f => reach_sels (reach_list f rt) rt sels
+    end.
+
+  Fixpoint check_set (fuel : nat) (rt : str) (sels : list selection) : bool :=
     match fuel with
     | O => false
     | S f =>
-      match x with
-      | SField al name args dirs sub =>
-          key_ok U (response_key al name) name && dirs_ok s vdefs dirs &&
-          if str_eqb name n_typename
-          then match args, sub with [], [] => true | _, _ => false end
-          else
-            match lookup_field s rt name with
-            | None => false
+      match reach_list f rt sels with
+      | None => false
+      | Some fl =>
+        forallb (fun kf => field_ok rt (snd kf)) fl &&
+        forallb (fun g : str * list fieldsel =>
+          match snd g with
+          | [] => true
+          | f1 :: _ =>
+            forallb (fun f' => str_eqb (fs_name f') (fs_name f1)) (snd g) &&
+            match lookup_field s rt (fs_name f1) with
+            | None => true
             | Some fd =>
-              args_ok s vdefs (f_args fd) args &&
-              match lookup_type s (named_of (f_type fd)) with
-              | None => false
-              | Some td =>
-                if is_leaf_def td then match sub with [] => true | _ => false end
-                else match sub with
-                     | [] => false
-                     | _ => forallb (fun rt' =>
-                              negb (runtime_of_b s (named_of (f_type fd)) rt')
-                              || forallb (check_sel f rt') sub) object_names
-                     end
-              end
+                forallb (fun rt' => negb (runtime_of_b s (named_of (f_type fd)) rt')
+                                    || check_set f rt' (merged_sels (snd g))) (object_names s)
             end
-      | SInline tc dirs sub =>
-          dirs_ok s vdefs dirs &&
-          if match tc with Some c => cond_matches s c rt | None => true end
-          then forallb (check_sel f rt) sub else true
-      | SSpread name dirs =>
-          dirs_ok s vdefs dirs &&
-          match find_frag name frags with
-          | None => false
-          | Some fr =>
-            if cond_matches s (fr_cond fr) rt then forallb (check_sel f rt) (fr_sels fr) else true
-          end
+          end) (group fl)
       end
     end.
 End Selections.
 
 (* ------------------------------------------------------------------ operations *)
 
-Fixpoint fields_of_sel (x : selection) : keymap :=
+(* @skip/@include conditions, everywhere in the document *)
+Fixpoint sel_dirs_ok (s : schema) (vdefs : list var_def) (nulls : list str) (x : selection) : bool :=
   match x with
-  | SField al name _ _ sub => (response_key al name, name) :: flat_map fields_of_sel sub
-  | SSpread _ _ => []
-  | SInline _ _ sub => flat_map fields_of_sel sub
+  | SField _ _ _ dirs sub => dirs_ok s vdefs nulls dirs && forallb (sel_dirs_ok s vdefs nulls) sub
+  | SSpread _ dirs => dirs_ok s vdefs nulls dirs
+  | SInline _ dirs sub => dirs_ok s vdefs nulls dirs && forallb (sel_dirs_ok s vdefs nulls) sub
   end.
-
-Definition doc_keymap (d : document) : keymap :=
-  flat_map fields_of_sel (d_sels d) ++ flat_map (fun fr => flat_map fields_of_sel (fr_sels fr)) (d_frags d).
 
 Fixpoint nodup_names (l : list str) : bool :=
   match l with [] => true | x :: r => negb (mem x r) && nodup_names r end.
@@ -241,26 +256,33 @@ Definition vars_ok (s : schema) (vdefs : list var_def) : bool :=
   nodup_names (map v_name vdefs) &&
   forallb (fun vd =>
     is_input_type s (v_type vd) &&
-    match v_default vd with Some lit => lit_ok s [] lit (v_type vd) false | None => true end) vdefs.
+    match v_default vd with Some lit => lit_ok s [] [] lit (v_type vd) false | None => true end) vdefs.
 
 Definition check_fuel (d : document) : nat :=
-  S (sels_depth (d_sels d) + fold_right (fun fr m => S (sels_depth (fr_sels fr)) + m) O (d_frags d))%nat.
+  (2 * S (sels_depth (d_sels d) + fold_right (fun fr m => S (sels_depth (fr_sels fr)) + m) O (d_frags d)))%nat.
 
-Definition well_typed_with (U : option keymap) (s : schema) (d : document) : bool :=
+Definition well_typed_with (nulls : list str) (s : schema) (d : document) : bool :=
   vars_ok s (d_vars d) &&
+  forallb (sel_dirs_ok s (d_vars d) nulls) (d_sels d) &&
+  forallb (fun fr => forallb (sel_dirs_ok s (d_vars d) nulls) (fr_sels fr)) (d_frags d) &&
   match root_type s (d_kind d) with
   | None => false
   | Some rt =>
-    is_object s rt &&
-    forallb (check_sel s (d_frags d) (d_vars d) U (check_fuel d) rt) (d_sels d)
+    is_object s rt && check_set s (d_frags d) (d_vars d) nulls (check_fuel d) rt (d_sels d)
   end.
 
 (* the modelled validation rules *)
-Definition well_typed (s : schema) (d : document) : bool := well_typed_with None s d.
+Definition well_typed (s : schema) (d : document) : bool := well_typed_with [] s d.
 
-(* ... and additionally: one response key, one field, document-wide *)
-Definition well_typed_strict (s : schema) (d : document) : bool :=
-  well_typed_with (Some (doc_keymap d)) s d.
+(* the variables of nullable type whose coerced value is null *)
+Definition nulls_of (vdefs : list var_def) (cv : list (str * value)) : list str :=
+  flat_map (fun vd =>
+    if is_nonnull (v_type vd) then []
+    else match lookup (v_name vd) cv with Some VNull => [v_name vd] | _ => [] end) vdefs.
+
+(* ... and none of those variables sits in a non-null position *)
+Definition well_typed_at (s : schema) (d : document) (cv : list (str * value)) : bool :=
+  well_typed_with (nulls_of (d_vars d) cv) s d.
 
 (* ------------------------------------------------------------------ data *)
 
@@ -295,8 +317,7 @@ Section Conformance.
         end
     | DList items =>
         match t0 with
-        | TList it => (fix all (l : list data) : bool :=
-                         match l with [] => true | x :: r => conforms x it && all r end) items
+        | TList it => forallb (fun x => conforms x it) items
         | _ => false
         end
     | DObj tn flds =>
@@ -307,15 +328,12 @@ Section Conformance.
             match rt with
             | None => false
             | Some rt =>
-              (fix all (l : list (str * data)) : bool :=
-                 match l with
-                 | [] => true
-                 | (k, d') :: r =>
-                   match lookup_field s rt k with
-                   | Some fd => conforms d' (f_type fd)
-                   | None => true
-                   end && all r
-                 end) flds
+              forallb (fun kd : str * data =>
+                         let (k, d') := kd in
+                         match lookup_field s rt k with
+                         | Some fd => conforms d' (f_type fd)
+                         | None => true
+                         end) flds
               && forallb (fun fd => has_key (f_name fd) flds || negb (is_nonnull (f_type fd)))
                          (fields_of rt)
             end
@@ -330,14 +348,6 @@ Section Conformance.
     | _ => false
     end.
 End Conformance.
-
-(* no variable declared with a nullable type has the value null (given or by default): the one case
-   the specification defers to run time - such a variable may legally sit in a non-null position
-   that has a default - is excluded *)
-Definition no_null_nullable_vars (vdefs : list var_def) (cv : list (str * value)) : bool :=
-  forallb (fun vd =>
-    is_nonnull (v_type vd) ||
-    match lookup (v_name vd) cv with Some VNull => false | _ => true end) vdefs.
 
 (* ------------------------------------------------------------------ response shape checker *)
 
